@@ -279,6 +279,81 @@ async fn directory_level<TC: ModelCfg>(rep: &Report, quick: bool) {
                 }
             }
         }
+        // the claimed node labels inside the proofs (what the VRF outputs are compared with): every alteration of
+        // the label bits or of the label LENGTH alone must make verification fail, for the lookup proof's three
+        // claims and for every claim of a history proof
+        {
+            let alter = |nl: &NodeLabel| -> Vec<(String, NodeLabel)> {
+                let mut out = vec![];
+                for len in [255u32, 254, 128, 1, 0] {
+                    out.push((format!("label_len_{len}"), NodeLabel { label_val: nl.label_val, label_len: len }));
+                }
+                for bit in (0..256usize).step_by(if quick { 37 } else { 5 }).chain([255usize]) {
+                    let mut v = nl.label_val;
+                    v[bit / 8] ^= 1 << (7 - bit % 8);
+                    out.push(("label_bit_flipped".into(), NodeLabel { label_val: v, label_len: nl.label_len }));
+                }
+                out
+            };
+            for (site, base) in [("existence", proof.existence_proof.label), ("marker", proof.marker_proof.label), ("freshness", proof.freshness_proof.label)] {
+                for (name, nl) in alter(&base) {
+                    rep.eval(1);
+                    let mut c = proof.clone();
+                    match site {
+                        "existence" => c.existence_proof.label = nl,
+                        "marker" => c.marker_proof.label = nl,
+                        _ => c.freshness_proof.label = nl,
+                    }
+                    if verify(pk.as_bytes(), c, &eh).is_ok() {
+                        rep.violation(format!("{}/lookup_with_altered_claimed_node_label_accepted/{}/{}", TC::NAME, site, name.trim_end_matches(char::is_numeric)), json!({"key": ki, "alteration": name}));
+                    }
+                }
+            }
+            let (hp, heh) = dir.key_history(&AkdLabel(b"a".to_vec()), akd::HistoryParams::Complete).await.unwrap();
+            let hverify = |p: akd::HistoryProof| akd::client::key_history_verify::<TC>(pk.as_bytes(), heh.1, heh.0, AkdLabel(b"a".to_vec()), p, akd::HistoryVerificationParams::AllowMissingValues { history_params: akd::HistoryParams::Complete });
+            rep.eval(1);
+            if hverify(hp.clone()).is_err() {
+                rep.violation(format!("{}/honest_history_rejected_under_own_key", TC::NAME), json!({"key": ki}));
+            }
+            // claim sites of the history proof: (description, accessor)
+            let n_up = hp.update_proofs.len();
+            let n_past = hp.existence_of_past_marker_proofs.len();
+            let n_fut = hp.non_existence_of_future_marker_proofs.len();
+            let mut sites: Vec<(String, usize, usize)> = vec![];
+            for i in 0..n_up {
+                sites.push(("update_existence".into(), 0, i));
+                if hp.update_proofs[i].previous_version_proof.is_some() {
+                    sites.push(("update_previous_version".into(), 1, i));
+                }
+            }
+            for i in 0..n_past {
+                sites.push(("past_marker".into(), 2, i));
+            }
+            for i in 0..n_fut {
+                sites.push(("future_marker_absence".into(), 3, i));
+            }
+            for (sname, kind, i) in sites {
+                let base = match kind {
+                    0 => hp.update_proofs[i].existence_proof.label,
+                    1 => hp.update_proofs[i].previous_version_proof.as_ref().unwrap().label,
+                    2 => hp.existence_of_past_marker_proofs[i].label,
+                    _ => hp.non_existence_of_future_marker_proofs[i].label,
+                };
+                for (name, nl) in alter(&base) {
+                    rep.eval(1);
+                    let mut c = hp.clone();
+                    match kind {
+                        0 => c.update_proofs[i].existence_proof.label = nl,
+                        1 => c.update_proofs[i].previous_version_proof.as_mut().unwrap().label = nl,
+                        2 => c.existence_of_past_marker_proofs[i].label = nl,
+                        _ => c.non_existence_of_future_marker_proofs[i].label = nl,
+                    }
+                    if hverify(c).is_ok() {
+                        rep.violation(format!("{}/history_with_altered_claimed_node_label_accepted/{}/{}", TC::NAME, sname, name.trim_end_matches(char::is_numeric)), json!({"key": ki, "alteration": name, "index": i}));
+                    }
+                }
+            }
+        }
         // VRF proofs exchanged between positions / labels / versions
         let (pb, _) = dir.lookup(AkdLabel(b"b".to_vec())).await.unwrap();
         let swaps: Vec<(&str, akd::LookupProof)> = vec![
@@ -353,7 +428,7 @@ pub fn run(args: &Args) -> i32 {
     batched_on_multithread::<W>(&rep, quick);
     batched_on_multithread::<E>(&rep, quick);
     rep.finish(
-        "3 keys x 6 labels (empty, a, b, ab, a\\0, 300 bytes) x 2 freshness values x 8 versions (1,2,3,255,256,2^32-1,2^32,2^64-1) x 2 configurations: get_node_label = get_node_labels (batched) = get_node_label_from_vrf_proof(get_label_proof), twice (determinism); the proof verifies under the public key and yields that label. Deviation 1 at verification: every other key / label / freshness / version of the alphabet substituted; every single-bit flip of the claimed node label; every single-bit flip and 0x00/0xff replacement of each proof byte (rejected or same label); wrong-size proofs; node labels pairwise distinct, commitments distinct across keys and equal between server and client formulas. Directory level: lookups verify only under the directory's key; altered or exchanged VRF proof bytes in a lookup proof are rejected or give the same result (this goes through the library's own label verification). Supplementary, SAMPLED (not exhaustive): the batched derivation is also run 20 (thorough 200) times on a multi-thread runtime, because its parallel tasks can only complete out of order there; every returned label must belong to the input it is paired with. One evaluation = one tuple or one alteration",
+        "3 keys x 6 labels (empty, a, b, ab, a\\0, 300 bytes) x 2 freshness values x 8 versions (1,2,3,255,256,2^32-1,2^32,2^64-1) x 2 configurations: get_node_label = get_node_labels (batched) = get_node_label_from_vrf_proof(get_label_proof), twice (determinism); the proof verifies under the public key and yields that label. Deviation 1 at verification: every other key / label / freshness / version of the alphabet substituted; every single-bit flip of the claimed node label; every single-bit flip and 0x00/0xff replacement of each proof byte (rejected or same label); wrong-size proofs; node labels pairwise distinct, commitments distinct across keys and equal between server and client formulas. Directory level: lookups verify only under the directory's key; altered or exchanged VRF proof bytes in a lookup proof are rejected or give the same result, and every alteration (label bits, or the label LENGTH alone) of a claimed node label inside a lookup or history proof is rejected (this goes through the library's own label verification). Supplementary, SAMPLED (not exhaustive): the batched derivation is also run 20 (thorough 200) times on a multi-thread runtime, because its parallel tasks can only complete out of order there; every returned label must belong to the input it is paired with. One evaluation = one tuple or one alteration",
         &["enumeration covers this alphabet and its deviation-1 neighbourhood only: it says nothing about the cryptographic soundness of the VRF over the full input space", "blake3 collision resistance"],
     )
 }
